@@ -303,8 +303,8 @@ def describe_iter(I, it):
     raise Unsupported(f'loop over {type(it).__name__} with invariant')
 
 
-LEMMA_BUILTINS = {'sum_unfold', 'sum_split', 'sum_nonneg', 'mul_distrib', 'swap_val', 'cmod_python', 'sum_mono', 'sorted_perm_identity', 'mod_shift', 'mod_small'}
-PROVED_LEMMAS = {'cmod_python', 'sum_mono', 'sorted_perm_identity', 'mod_shift', 'mod_small'}     # their closed statement is an obligation of the same run
+LEMMA_BUILTINS = {'sum_unfold', 'sum_split', 'sum_nonneg', 'mul_distrib', 'swap_val', 'cmod_python', 'sum_mono', 'sorted_perm_identity', 'mod_shift', 'mod_small', 'mod_qr'}
+PROVED_LEMMAS = {'cmod_python', 'sum_mono', 'sorted_perm_identity', 'mod_shift', 'mod_small', 'mod_qr'}     # their closed statement is an obligation of the same run
 
 
 def assume_lemmas(I, lemmas):
